@@ -386,11 +386,14 @@ pub fn index_left(cases: &str, out: &str) {
         let lf: Vec<f64> = li.iter().map(|x| *x as f64).collect();
         let ri = guard(|| rateslib::verif::index_left_i64(&li, &rank));
         let rf = guard(|| rateslib::verif::index_left_f64(&lf, &(rank as f64)));
+        // the Python-facing function's optional `left_count` (an offset added to the answer)
+        let cnt = (n + rank) as usize % 4;
+        let rc = guard(|| rateslib::verif::index_left_f64_count(&lf, &(rank as f64), Some(cnt)));
         let f = |x: Outcome<usize>| match x {
             Outcome::Ok(v) => json!(v),
             Outcome::Panic(_) => json!(-1),
         };
-        o.emit(&json!({"key": format!("index_left/{}/{}", n, rank), "ev": [{"op":"index_left","n":n,"rank":rank,"i64":f(ri),"f64":f(rf)}]}));
+        o.emit(&json!({"key": format!("index_left/{}/{}", n, rank), "ev": [{"op":"index_left","n":n,"rank":rank,"i64":f(ri),"f64":f(rf),"c":cnt,"f64c":f(rc)}]}));
     }
     eprintln!("curve index_left: {} events", o.finish());
 }
